@@ -8,6 +8,7 @@ use hbv::outcome::Outcome;
 use hbv::specs::map as m;
 use hbv::specs::table as t;
 use hbv::specs::set as st;
+use hbv::specs::lay as ly;
 use proptest::strategy::BoxedStrategy;
 
 fn eval_plain(case: &Case) -> Outcome {
@@ -888,6 +889,191 @@ pub static C07: PropDef = PropDef {
     prop_labels: &[(L_X1, "get_or_insert_with_refused_or_sub_assign_remove_loop"), (L_X2, "binary_op_on_incomparable_non_empty_sets"), (L_X3, "binary_op_on_equal_sized_sets")],
 };
 
+// ---------------------------------------------------------------------------------------------
+// C02: memory safety over layouts and object life cycles
+
+static C02_WEIGHTS: &[(u16, u32)] = &[
+    (ly::INSERT, 22),
+    (ly::REMOVE, 10),
+    (ly::GET, 6),
+    (ly::LIFE, 30),
+    (ly::RESERVE, 3),
+    (ly::SHRINK_TO_FIT, 3),
+    (ly::SHRINK_TO, 2),
+    (ly::CLEAR, 1),
+    (ly::CLONE_SWAP, 4),
+    (ly::FILL_TO_CAPACITY, 4),
+    (ly::REMOVE_RUN, 5),
+    (ly::RETAIN, 3),
+    (ly::WITH_CAPACITY, 2),
+    (ly::TRY_RESERVE, 1),
+];
+
+fn c02_strategy(tier: Tier) -> BoxedStrategy<Case> {
+    let n = if tier == Tier::Quick { 80 } else { 250 };
+    union2(
+        lay_case_strategy(LayGen { prop: 2, weights: C02_WEIGHTS, max_ops: n, generic_pct: 25 }),
+        3,
+        map_case_strategy(MapGen { prop: 2, weights: C04_WEIGHTS, max_ops: n, generic_pct: 25, plain_pct: 30 }),
+        1,
+    )
+}
+
+fn c02_nontrivial(c: &Case, o: &Outcome) -> bool {
+    if c.kind == "lay" {
+        (c.h("layout") != 7 || o.labels & L_X1 != 0) && o.labels & (L_RESIZE_UP | L_FULL_LOAD) != 0
+    } else {
+        o.labels & (L_DRAIN_CUT | L_INTOITER_CUT | L_EXTRACT_CUT | L_REHASH_IN_PLACE) != 0
+    }
+}
+
+pub static C02: PropDef = PropDef {
+    id: "C02",
+    rule: "safe-API programs over HashTable / HashSet / HashMap<E,E> for 19 element layouts (14 plain (size, align) \
+           pairs from (0,1) and (0,64) to (64,64) and (200,8), 5 tracked ones) x hash plans x both back-ends: \
+           insert/remove/lookup/reserve/shrink/clone/retain plus life-cycle operations that create an iterator, drain, \
+           extract_if, into_iter, entry, raw entry, rustc entry or occupied-error object, advance it j steps and then \
+           DROP or mem::forget it and keep using the collection; one quarter of the cases are HashMap histories with \
+           tracked keys/values from the C04 alphabet. Monitors: guarded allocator (red zones, poison, quarantine, \
+           layout match), every reference checked for alignment / inside the data part of the live block / element \
+           self-check, structure validator V1-V4, debug assertions and std unsafe-precondition checks. Non-trivial = \
+           (a non-default layout, or a forget / strictly-inside early drop happened) and the table left the singleton state",
+    level: "exploration",
+    cases_quick: 24_000,
+    cases_thorough: 400_000,
+    strategy: c02_strategy,
+    eval: eval_plain,
+    nontrivial: c02_nontrivial,
+    specs: hbv::specs::LAY_OPS,
+    assumptions: &[
+        "absence of undefined behaviour is only as good as the monitors: out-of-bounds writes near a block and reads that change behaviour are seen; the thorough tier adds AddressSanitizer (libFuzzer) and Miri replays",
+        "data races are out of scope here (C16 covers Send/Sync)",
+    ],
+    prop_labels: &[(L_X1, "object_forgotten_or_dropped_strictly_inside"), (L_X2, "capacity_boundary_op"), (L_X3, "try_reserve_error_or_huge_request")],
+};
+
+// ---------------------------------------------------------------------------------------------
+// C08: capacity contract
+
+static C08_WEIGHTS: &[(u16, u32)] = &[
+    (ly::INSERT, 14),
+    (ly::REMOVE, 8),
+    (ly::RESERVE, 12),
+    (ly::SHRINK_TO_FIT, 8),
+    (ly::SHRINK_TO, 12),
+    (ly::CLEAR, 3),
+    (ly::FILL_TO_CAPACITY, 12),
+    (ly::REMOVE_RUN, 8),
+    (ly::RETAIN, 3),
+    (ly::WITH_CAPACITY, 10),
+    (ly::LIFE, 3),
+    (ly::CLONE_SWAP, 2),
+];
+
+static C08_MAP_WEIGHTS: &[(u16, u32)] = &[
+    (m::INSERT, 10),
+    (m::REMOVE, 6),
+    (m::RESERVE, 10),
+    (m::RESERVE_TO_BOUNDARY, 8),
+    (m::SHRINK_TO_FIT, 6),
+    (m::SHRINK_TO, 10),
+    (m::FILL_TO_CAPACITY, 12),
+    (m::REMOVE_RUN, 6),
+    (m::REHASH_SETUP, 4),
+    (m::CLEAR, 3),
+    (m::DRAIN, 3),
+    (m::DROP_RECREATE, 6),
+    (m::ENTRY, 3),
+    (m::TRY_RESERVE, 3),
+    (m::REMOVE_ALL_BUT, 2),
+];
+
+fn c08_strategy(tier: Tier) -> BoxedStrategy<Case> {
+    let n = if tier == Tier::Quick { 80 } else { 250 };
+    union2(
+        lay_case_strategy(LayGen { prop: 8, weights: C08_WEIGHTS, max_ops: n, generic_pct: 25 }),
+        2,
+        map_case_strategy(MapGen { prop: 8, weights: C08_MAP_WEIGHTS, max_ops: n, generic_pct: 25, plain_pct: 50 }),
+        1,
+    )
+}
+
+fn c08_nontrivial(c: &Case, o: &Outcome) -> bool {
+    if c.kind == "lay" {
+        o.labels & (L_X2 | L_FULL_LOAD) != 0
+    } else {
+        o.labels & (L_TOMBSTONE | L_FULL_LOAD) != 0
+    }
+}
+
+pub static C08: PropDef = PropDef {
+    id: "C08",
+    rule: "states from histories (tombstones included) x n, m drawn from 0..4*capacity and the 7/8*2^k / 2^k boundaries x \
+           19 element layouts (minimum table size depends on element size) x the three collection kinds on the checking \
+           allocator, plus new()/default()/with_capacity(0) on Global observed through a counting global allocator; \
+           oracle: capacity >= len; after with_capacity/reserve capacity >= len+n; inserting capacity()-len() fresh keys \
+           makes zero allocator calls; clear/drain keep the block; allocation_size() == ledger bytes; the shrink \
+           inequalities of the statement incl. comparison with a fresh with_capacity(max(len, m)). Non-trivial = the \
+           state had a tombstone or len()==capacity(), or an operation sat on a capacity boundary",
+    level: "exploration",
+    cases_quick: 24_000,
+    cases_thorough: 400_000,
+    strategy: c08_strategy,
+    eval: eval_plain,
+    nontrivial: c08_nontrivial,
+    specs: hbv::specs::LAY_OPS,
+    assumptions: &["HashMap::insert of a present key may reallocate (DESIGN 11.2); only not-yet-present keys are used for the no-allocation claim"],
+    prop_labels: &[(L_X1, "object_forgotten_or_dropped_strictly_inside"), (L_X2, "capacity_boundary_op"), (L_X3, "try_reserve_error_or_huge_request")],
+};
+
+// ---------------------------------------------------------------------------------------------
+// C12: try_reserve
+
+static C12_WEIGHTS: &[(u16, u32)] = &[
+    (ly::TRY_RESERVE, 40),
+    (ly::INSERT, 16),
+    (ly::REMOVE, 6),
+    (ly::FILL_TO_CAPACITY, 5),
+    (ly::REMOVE_RUN, 4),
+    (ly::CLEAR, 1),
+    (ly::SHRINK_TO_FIT, 2),
+    (ly::WITH_CAPACITY, 2),
+    (ly::GET, 2),
+];
+
+fn c12_strategy(tier: Tier) -> BoxedStrategy<Case> {
+    lay_case_strategy(LayGen {
+        prop: 12,
+        weights: C12_WEIGHTS,
+        max_ops: if tier == Tier::Quick { 60 } else { 200 },
+        generic_pct: 25,
+    })
+}
+
+fn c12_nontrivial(_c: &Case, o: &Outcome) -> bool {
+    o.labels & L_X3 != 0
+}
+
+pub static C12: PropDef = PropDef {
+    id: "C12",
+    rule: "states x `additional` from {0..64, around every 7/8*2^k and 2^k (k <= 14), isize::MAX, usize::MAX, \
+           usize::MAX/size_of::<T>() +- 1, ...} x 19 layouts incl. zero-sized x 3 collection kinds x allocator behaviour \
+           {grant, refuse the j-th request, refuse above a limit L}; oracle: Ok (capacity >= len+additional) | \
+           CapacityOverflow (never when an independently computed generous block size fits under L) | AllocError with \
+           exactly a refused layout; never a panic; every layout shown to the allocator is valid; on Err contents, len, \
+           capacity, block address and size are identical to the snapshot, no element event, no block left live. \
+           Non-trivial = an Err on a non-empty state or an `additional` on an arithmetic boundary",
+    level: "exploration",
+    cases_quick: 24_000,
+    cases_thorough: 400_000,
+    strategy: c12_strategy,
+    eval: eval_plain,
+    nontrivial: c12_nontrivial,
+    specs: hbv::specs::LAY_OPS,
+    assumptions: &["allocator refusal is simulated by the checking allocator; real OOM of the system allocator is not exercised", "requests above 64 MiB are always refused (never really allocated)"],
+    prop_labels: &[(L_X1, "object_forgotten_or_dropped_strictly_inside"), (L_X2, "capacity_boundary_op"), (L_X3, "try_reserve_error_or_huge_request")],
+};
+
 pub fn all() -> Vec<&'static PropDef> {
-    vec![&C01, &C03, &C04, &C05, &C06, &C07, &C09, &C10, &C11, &C13, &C14, &C15]
+    vec![&C01, &C02, &C03, &C04, &C05, &C06, &C07, &C08, &C09, &C10, &C11, &C12, &C13, &C14, &C15]
 }
